@@ -349,6 +349,11 @@ def main(argv=None):
     rng = random.Random(f'{prop_id}:{seed}')
     log = []
 
+    # checks against the default /repo may overlap each other; a check against another tree (PYCEL_REPO, used for
+    # seeded changes) regenerates lean/Pycel/Generated from THAT tree, so it must not overlap any other check
+    session = open(os.path.join(LEAN, '.session.lock'), 'w')
+    fcntl.flock(session, fcntl.LOCK_SH if os.path.realpath(REPO) == '/repo' else fcntl.LOCK_EX)
+
     # 0. tables regenerated from the live source (a changed table breaks the proofs that use it)
     table_err = None
     try:
